@@ -34,6 +34,9 @@ pub struct Spec<'a, S, K: Hash> {
     /// model.  With `check == false` (prefix replay) the oracle may be skipped.
     pub step: &'a (dyn Fn(&mut S, usize, bool) -> Step + Sync),
     pub key: &'a (dyn Fn(&S) -> K + Sync),
+    /// Optional coarser projection of the state, *counted only* (never used for deduplication): lets a second
+    /// engine that works on an abstraction of the state compare its state count with this search.
+    pub project: Option<&'a (dyn Fn(&S) -> K + Sync)>,
     pub label: &'a (dyn Fn(usize) -> String + Sync),
 }
 
@@ -45,6 +48,8 @@ pub struct Stats {
     pub closed: bool,
     pub dedup_hits: u64,
     pub per_depth: Vec<u64>,
+    /// distinct values of the `project` function over all visited states (0 if there is no projection)
+    pub projected_states: u64,
 }
 
 pub fn fingerprint<K: Hash>(k: &K) -> u128 {
@@ -104,7 +109,11 @@ pub fn run<S, K: Hash>(ctx: &Ctx, rep: &mut Report, spec: Spec<S, K>) -> Stats {
     let mut sample_hist: Vec<Vec<u8>> = Vec::new();
 
     // expansion of one frontier item: Vec<(action, fingerprint)> of Ok transitions + violations
-    type Expansion = (Vec<(u8, u128)>, Vec<(u8, String, String, Json)>);
+    let mut projected: HashSet<u128, FnvBuild> = HashSet::with_hasher(FnvBuild);
+    if let Some(pf) = spec.project {
+        projected.insert(fingerprint(&pf(&(spec.fresh)())));
+    }
+    type Expansion = (Vec<(u8, u128, u128)>, Vec<(u8, String, String, Json)>);
     let expand = |h: &[u8], expect_fp: u128| -> Expansion {
         let mut oks = Vec::new();
         let mut bad = Vec::new();
@@ -121,7 +130,7 @@ pub fn run<S, K: Hash>(ctx: &Ctx, rep: &mut Report, spec: Spec<S, K>) -> Stats {
                 }
             }
             match (spec.step)(&mut s, a, true) {
-                Step::Ok => oks.push((a as u8, fingerprint(&(spec.key)(&s)))),
+                Step::Ok => oks.push((a as u8, fingerprint(&(spec.key)(&s)), spec.project.map(|pf| fingerprint(&pf(&s))).unwrap_or(0))),
                 Step::Disabled => {}
                 Step::Violated(sig, what, case) => bad.push((a as u8, sig, what, case)),
             }
@@ -179,8 +188,11 @@ pub fn run<S, K: Hash>(ctx: &Ctx, rep: &mut Report, spec: Spec<S, K>) -> Stats {
         let mut next_frontier: Vec<(Vec<u8>, u128)> = Vec::new();
         for (i, (oks, bad)) in results {
             let h = &frontier[i].0;
-            for (a, fp) in oks {
+            for (a, fp, pfp) in oks {
                 st.transitions += 1;
+                if spec.project.is_some() {
+                    projected.insert(pfp);
+                }
                 if seen.insert(fp) {
                     let mut nh = h.clone();
                     nh.push(a);
@@ -226,6 +238,7 @@ pub fn run<S, K: Hash>(ctx: &Ctx, rep: &mut Report, spec: Spec<S, K>) -> Stats {
         frontier = next_frontier;
     }
 
+    st.projected_states = projected.len() as u64;
     rep.states += st.states;
     rep.transitions += st.transitions;
     rep.traces_validated += st.transitions;
